@@ -621,11 +621,26 @@ fn c10(run: &Run) -> i32 {
     plan1.skip_reach = true;
     plan1.rights = false;
     plan1.mat1 = vec![];
-    plan1.promo = true;
+    plan1.promo = !run.quick();
     plan1.ep_extra = if run.quick() { vec![None] } else { vec![None, Some((Color::B, Kind::B)), Some((Color::B, Kind::R))] };
-    plan1.corner = corner_sigs(if run.quick() { 2 } else { 0 });
+    plan1.corner = if run.quick() { vec![] } else { corner_sigs(2) };
     let (s1, _) = sweep::run_plan(&ctx1, &plan1);
     s += s1;
+    // position shapes with the default configuration only (two streams per position): en passant next to pins with a
+    // further enemy slider anywhere, promotions, cornered kings
+    let mut mon0 = Mon::default();
+    mon0.c10 = 1;
+    let ctx0 = make_ctx(run, mon0, &keymap);
+    let mut plan0 = base_plan(run.quick());
+    plan0.skip_reach = true;
+    plan0.rights = false;
+    plan0.mat1 = vec![];
+    plan0.ep_restrict_king = true;
+    plan0.ep_extra = if run.quick() { vec![Some((Color::B, Kind::B)), Some((Color::B, Kind::Q))] } else { ep_extras_all() };
+    plan0.promo = true;
+    plan0.corner = corner_sigs(if run.quick() { 2 } else { 0 });
+    let (s0, _) = sweep::run_plan(&ctx0, &plan0);
+    s += s0;
     let streams = run.counter("picker_streams");
     for f in ["picker_positions_with_previous_move", "picker_positions_with_captures_and_quiets", "picker_hash_move_first"] {
         run.require(f, 50);
